@@ -311,3 +311,34 @@ def write_evidence(prop, tier, seed, coverage, assumptions, wall, violations):
     ev = {"property_id": prop, "tier": tier, "seed": seed, "level": "proof", "coverage": coverage,
           "assumptions": assumptions, "wall_s": round(wall, 2), "violations": violations}
     open(os.path.join(d, prop + ".json"), "w").write(json.dumps(ev, indent=1))
+
+
+# ------------------------------------------------------------------ extraction self-check
+def kernel_recheck(cases, model, limit=60):
+    """Re-validate a sample of the extracted model's results inside Coq: for each sampled case of
+    entry `main`, an `Example` stating  run_main argv stdin = <what the OCaml driver printed>  is
+    closed by vm_compute + reflexivity.  Guards the extraction, the OCaml compiler and the driver
+    glue (hex decoding, number conversion).  Returns (checked, error-or-None)."""
+    def nlist(b):
+        return "[" + ";".join("%d" % x for x in b) + "]%N"
+    picked = [c for c in cases if c.entry == "main" and not c.seg and not c.extra and c.id in model
+              and len(c.stdin) <= 48 and sum(len(a) for a in c.argv) <= 48][:limit]
+    if not picked:
+        return 0, None
+    lines = ["From TucModel Require Import Base.Bytes Model.Bounds Model.Args Model.Main.", ""]
+    for i, c in enumerate(picked):
+        cls, out = model[c.id]
+        rhs = {"0": "MOut (Done %s)" % nlist(out), "1": "MOut (Fail %s)" % nlist(out), "panic": "MOut Panic",
+               "hang": "MOut Hang", "info": "MInfo", "unknown": "MUnknown"}[cls]
+        argv = "[" + ";".join(nlist(a) for a in c.argv) + "]"
+        lines.append("Example k%d : run_main %s %s = %s.\nProof. vm_compute. reflexivity. Qed." % (i, argv, nlist(c.stdin), rhs))
+    d = os.path.join(BUILD, "kernel-recheck")
+    os.makedirs(d, exist_ok=True)
+    f = os.path.join(d, "recheck_%d.v" % os.getpid())
+    open(f, "w").write("\n".join(lines) + "\n")
+    rc, out = sh(["timeout", "900", "coqc", "-Q", COQ, "TucModel", f], cwd=d, check=False)
+    for ext in (".v", ".vo", ".glob", ".vok", ".vos"):
+        q = f[:-2] + ext
+        if os.path.exists(q):
+            os.remove(q)
+    return len(picked), (None if rc == 0 else out[-1500:])
